@@ -2,7 +2,7 @@
 import _dbprop, dbcheck
 PROP = "C03"
 def run(tier, seed):
-    return _dbprop.run(PROP, tier, seed, [("txn", 18, 300), ("atom", 12, 200)],
+    return _dbprop.run(PROP, tier, seed, [("txn", 14, 300), ("atom", 10, 200), ("reopen", 6, 60)],
         ["exact deviation UpdateStampsCreator (an UPDATE survives ROLLBACK; pinned by tests/mod.rs:110-126) is part of the as-built specification",
          "open transactions write disjoint rows (partitioned ids): overlapping writers are the recorded finding NoWriteSetValidation",
          "in sessions only single-row statements are made to fail (finding SessionStatementNotAtomic)"],
